@@ -160,13 +160,15 @@ VEC_NAMES = {1: "a", 2: "b", 3: "c", 4: "d", 5: "f", 6: "g", 7: "h"}
 SCAL_NAMES = {1: "x", 2: "y", 3: "t"}
 
 
-def prog_str(prog) -> str:
+def prog_str(prog, vec_names=None) -> str:
+    names = dict(VEC_NAMES)
+    names.update(vec_names or {})
     out = []
     for op, k in prog:
         if op == "vec":
-            out.append(VEC_NAMES[k])
+            out.append(names[k])
         elif op == "dvec":
-            out.append("d" + VEC_NAMES[k])
+            out.append("d" + names[k])
         elif op == "scal":
             out.append(SCAL_NAMES[k])
         elif op == "int":
